@@ -44,6 +44,8 @@ def encode_segment(rec, seg, body, first, last):
         attr |= A_SUCC
     if rec.get('encrypted'):
         attr |= A_ENCRYPTED
+    if seg.get('enc_packet'):
+        attr |= A_ENCPACKET
     if seg['checksum']:
         attr |= A_CHECKSUM
     if seg['trailing']:
@@ -187,6 +189,18 @@ def record_and_layout(draw, max_payload=3000, allow_encrypted=True, min_payload=
     head = draw(st.binary(max_size=min(n, 8)))
     payload = head + bytes(((seed + 3 * i + (i >> 8) * 11) & 0xFF) for i in range(n - len(head)))
     layout = [draw(segment_for(b, encrypted, force)) for b in bodies]
+    if encrypted and draw(st.booleans()):
+        # encryption packets (attribute bit 5, legal with the encryption flag only): the segment body then starts with
+        # size (UNORM, counts itself), producer code (UNORM) and encryption information; the reader hands encrypted
+        # segment bodies over as they are, so the packet is part of what it delivers
+        buf, ofs = bytearray(payload), 0
+        for seg in layout:
+            if seg['n'] >= 4 and draw(st.integers(0, 2)) != 0:
+                size = 2 * draw(st.integers(2, min(seg['n'], 16) // 2))
+                buf[ofs:ofs + 4] = struct.pack('>HH', size, 440)
+                seg['enc_packet'] = True
+            ofs += seg['n']
+        payload = bytes(buf)
     rec = {'eflr': draw(st.booleans()), 'type': draw(st.one_of(st.integers(0, 11), st.integers(0, 255))),
            'payload': payload, 'encrypted': encrypted}
     return rec, layout
